@@ -1,6 +1,9 @@
 package absint
 
 import (
+	"go/types"
+	"math/big"
+
 	"golang.org/x/tools/go/ssa"
 )
 
@@ -161,6 +164,87 @@ func (it *Interp) leaf(fr *Frame, x *ssa.Call, fn *ssa.Function, args []Value) V
 	return nil
 }
 
+// ModExp is the opaque integer x^y mod m (math/big.Int.Exp contract), in [0, m-1].
+func ModExp(x, y, m *Term) *Term {
+	hi := max256
+	if k, ok := m.IsConst(); ok && k.Sign() > 0 {
+		hi = new(big.Int).Sub(k, bigOne)
+	}
+	key := "modexp:" + x.Key() + ":" + y.Key() + ":" + m.Key()
+	return TAtom(A.internI(key, func() *IAtom {
+		return &IAtom{Kind: IWOp, Op: "modexp", Args: []*Term{x, y, m}, Idx: 256, Lo: bigZero, Hi: hi}
+	}))
+}
+
+func (it *Interp) bigVal(v Value) (*Term, *Cell, bool) {
+	p, ok := v.(Ptr)
+	if !ok {
+		return nil, nil, false
+	}
+	t, ok := it.bigVals[p.C]
+	return t, p.C, ok
+}
+
+// bigModel models the few math/big operations Scalar.Pow uses, on integer terms.
 func (it *Interp) bigModel(fr *Frame, x *ssa.Call, key string, args []Value) (Value, bool) {
+	if it.bigVals == nil {
+		it.bigVals = map[*Cell]*Term{}
+	}
+	switch key {
+	case "math/big.NewInt":
+		if k, ok := args[0].(KInt); ok {
+			o := it.NewObject(x.Type().(*types.Pointer).Elem(), "big.Int", false)
+			it.bigVals[o.Root] = TConst(k.V)
+			return Ptr{o.Root}, true
+		}
+	case "math/big.Int.SetBytes":
+		z, ok := args[0].(Ptr)
+		if !ok {
+			return nil, false
+		}
+		segs, ok := it.sliceSegs(args[1])
+		if !ok {
+			return nil, false
+		}
+		ns := normSegs(segs)
+		if len(ns) == 0 {
+			it.bigVals[z.C] = TInt(0)
+			return z, true
+		}
+		if len(ns) == 1 && ns[0].Bytes != nil {
+			t := TInt(0)
+			n := len(ns[0].Bytes)
+			for i, b := range ns[0].Bytes {
+				t = t.Add(b.Scale(pow2(8 * (n - 1 - i))))
+			}
+			it.bigVals[z.C] = t.Recompose()
+			return z, true
+		}
+	case "math/big.Int.Exp":
+		z, ok := args[0].(Ptr)
+		vx, _, ok1 := it.bigVal(args[1])
+		vy, _, ok2 := it.bigVal(args[2])
+		vm, _, ok3 := it.bigVal(args[3])
+		if ok && ok1 && ok2 && ok3 {
+			it.event("modexp", fr.fn, x.Pos(), "%s|%s|%s", vx.Key(), vy.Key(), vm.Key())
+			it.bigVals[z.C] = ModExp(vx, vy, vm)
+			return z, true
+		}
+	case "math/big.Int.Bytes":
+		if v, _, ok := it.bigVal(args[0]); ok {
+			if k, isC := v.IsConst(); isC {
+				bs := k.Bytes()
+				var ts []*Term
+				for _, b := range bs {
+					ts = append(ts, TInt(int64(b)))
+				}
+				return AbsSlice{Segs: []Seg{{Bytes: ts}}}, true
+			}
+			_, hi := v.Bounds()
+			maxLen := int64((hi.BitLen() + 7) / 8)
+			l := SymInt("len(minbytes("+v.Key()+"))", bigZero, big.NewInt(maxLen))
+			return AbsSlice{Segs: []Seg{{Min: v, Len: l}}}, true
+		}
+	}
 	return nil, false
 }
